@@ -35,6 +35,10 @@ func c14Case(c *core.Case) {
 		c14Ranges(c)
 		return
 	}
+	if c.Index%12 == 7 {
+		c14Scanner(c)
+		return
+	}
 	src := pickSeed(c, false)
 	if gen.Chance(r, 0.08) {
 		// heredoc edges: what may follow a closing marker, odd indentation
